@@ -358,6 +358,13 @@ def gen_purity_world(rw, rv, knobs):
         R.add("sim", {"kind": "simulator", "exposure_time": rw.choice([300.0, 1000.0]), "background_sky_level": rw.choice([0.0, 0.1, 1.0]), "psf": ref(kpsf) if rw.random() < 0.7 else None,
                       "noise_seed": rw.randrange(0, 1000), "add_poisson_noise_to_data": rw.random() < 0.8, "normalize_psf": rw.random() < 0.7})
 
+    if "layout" in want:
+        hl, wl = rw.randrange(5, 9), rw.randrange(5, 9)
+        ml = R.add("m", {"kind": "mask2d", "shape": [hl, wl], "bits": "0" * (hl * wl), "pixel_scales": [1.0, 1.0], "origin": [0.0, 0.0]})
+        R.add("a", {"kind": "array2d", "mask": ref(ml), "input": "native", "values": hx(rv, hl * wl, "data"), "store_native": rw.random() < 0.5})
+        R.add("rg", {"kind": "region2d", "region": [0, rw.randrange(2, hl), rw.randrange(0, 2), rw.randrange(3, wl)]})
+        R.add("ly", {"kind": "layout2d", "shape_2d": [hl, wl], "regions": {"serial_overscan": [0, hl - 1, wl - 1, wl], "serial_prescan": [0, hl, 0, 1], "parallel_overscan": [hl - 1, hl, 1, wl - 1]}})
+
     if "image_mesh" in want:
         adapt_im = R.add("a", {"kind": "array2d", "mask": ref(m0), "input": "slim", "values": hx(rv, n0, "positive")})
         for _ in range(rw.randrange(1, 3)):
